@@ -3,6 +3,7 @@ CH = ['asmjit/core/codeholder.cpp', 'asmjit/core/codewriter.cpp']
 UNITS = [
     Unit('reloc', harness=['h_reloc.cpp'], repo_units=CH),
     Unit('addrtab', harness=['h_addrtab.cpp'], repo_units=CH),
+    Unit('knownbase', harness=['h_known_base.cpp'], repo_units=CH + ['asmjit/x86/x86assembler.cpp', 'asmjit/x86/x86instdb.cpp', 'asmjit/x86/x86instapi.cpp'], extra_c=['../C10/memmove_words.c']),
 ]
 B1 = 'base address, payload and both section offsets all 2^64 values; relocation type AbsToAbs / RelToAbs / AbsToRel / unsupported; source and target section 0 or 1; target section set or kInvalidId; 0..4 trailing immediate bytes; x86-32 and 64-bit address size; 16 symbolic bytes per section (field bits zero)'
 HARNESSES = [Harness('reloc', 'h_reloc_' + k, unwind=33, bounds='format ' + k + '; ' + B1, mem_gb=4, timeout=600) for k in ('u1', 'u2', 'u4', 'u8', 's1', 's4', 's8')]
@@ -18,10 +19,16 @@ HARNESSES += [
     Harness('addrtab', 'h_addrtab_two_kf_D5', unwind=33, known='D5', bounds='as h_addrtab_two, confined to: a user section is ordered after .addrtab', mem_gb=8, timeout=1200, tiers=('thorough',)),
     Harness('addrtab', 'h_addrtab_image', unwind=33, bounds='as h_addrtab_one; every byte is read back from the 48-byte destination of the real copy_flattened_data (8+8 guard bytes)', mem_gb=8, timeout=1800, tiers=('thorough',)),
     Harness('addrtab', 'h_addrtab_image_kf_D5', unwind=33, known='D5', bounds='as h_addrtab_image, confined to: a user section is ordered after .addrtab', mem_gb=8, timeout=1800, tiers=('thorough',)),
+    Harness('knownbase', 'h_known_base_x64', unwind=33, bounds='x86-64 call/jmp imm64 through the real x86 _emit; target and base address all 2^64 values; emitted with the base known at init and with the base assigned by relocate_to_base', mem_gb=4, timeout=1200, flags=['--max-field-sensitivity-array-size', '256'],
+            unwindset='_ZN6asmjit5v1_21L30CodeHolder_evaluate_expressionEPNS0_10CodeHolderEPNS0_10ExpressionEPm:1'),
+    Harness('knownbase', 'h_known_base_x86', unwind=33, bounds='x86-32 call/jmp imm32 through the real x86 _emit; target and base all 2^32 values; base known at init vs assigned by relocate_to_base', mem_gb=4, timeout=1200, flags=['--max-field-sensitivity-array-size', '256'],
+            unwindset='_ZN6asmjit5v1_21L30CodeHolder_evaluate_expressionEPNS0_10CodeHolderEPNS0_10ExpressionEPm:1'),
 ]
 EXPLANATION = 'bounded symbolic execution (CBMC) of the real CodeHolder::relocate_to_base / flatten / copy_flattened_data / CodeWriterUtils::write_offset compiled from /repo, from directly constructed relocation tables; the oracle decodes the patched bytes the way the CPU does (reference decoders in the harness)'
 OUTSIDE = ['more than two relocation entries / two address-table entries (the loop and the tree lookup are uniform)', 'JitRuntime::_add mmap side',
            'a64 ADRP to a label (no relocation is created by the back end)', 'Thumb/A32 formats (no producer in this tree)']
-ASSUMPTIONS = ['relocation tables, label tables and the address-table tree are built directly in static storage in the state the back ends leave them (emit side: C03/H3, known-base equivalence: h_known_base_*)',
+ASSUMPTIONS = ['unit knownbase: the x86::Assembler is attached by construction; BaseEmitter::_report_error / is_label_valid / log_instruction_failed are harness definitions; memmove is modelled by checks/C10/memmove_words.c; values handed over by _emit (relocation, address-table section and entry) are asserted and then re-stated as constants (V_CONCRETIZE) for the symbolic executor',
+               'Arena::_alloc_oneshot / ArenaVector growth / CodeHolder::grow_buffer are stubs that assert they are not reached (include/ch_env.h); the arena block end is the highest address',
+               'relocation tables, label tables and the address-table tree are built directly in static storage in the state the back ends leave them (emit side: C03/H3, known-base equivalence: h_known_base_*)',
                'field bits of a relocated word are zero before relocation (both back ends emit zero placeholders; write_offset ORs the field in)',
                'relocate_to_base is called once (documented)', 'malloc does not fail (C15)']
